@@ -1,5 +1,6 @@
 import M3d.Basic
 import M3d.Model.Bounded
+import M3d.Model.BoundedPoly
 /-!
 Line-protocol handler for C03 (core-only).
 
@@ -8,6 +9,11 @@ Line-protocol handler for C03 (core-only).
     c03 cab <f> axis n0 n1 n2 sign                 -> circleAxisBound
     c03 cyl|cone|torus|capsule <f> params          -> Min()/Max()
     c03 shell ...                                  -> "ok"  (the property's requirement)
+    c03 polycut <q|f> dim n (s nx ny nz m)*n npts pts -> "1 <answers>": valid bounds, and for every point the
+        half-space test of the UNSCALED system (`polyContains (unscaledCs l)`), which is what
+        `ConvexPolytope.Solid().Contains` of the scaled system has to answer
+        (`M3d.C03.polytope_scale_invariant`, `wrapper_does_not_cut_polytope`)
+    c03 pvert <f> dim n (nx ny nz m)*n               -> the vertices `Mesh()` enumerates (`meshVerts3/2`), in order
 
 All numbers cross the boundary as exact rationals `num/den`; mode `q` runs the model at `Rat`
 (the instance the theorems cover), mode `f` at `Float` (same operations, same order as the Go code).
@@ -376,8 +382,37 @@ def runPrim (N : Num α) (kind : String) (ws : List String) : Option String := d
     pure (showBox N d3 (sphereS d3 c r).box)
   | _ => none
 
+/-- `polycut`: the requirement for `ConvexPolytope.Solid()` of the scaled system. -/
+def runPolyCut (N : Num α) (ws : List String) : Option String := do
+  let (_, ws) ← pDim ws
+  let (n, ws) ← pNat ws
+  let (l, ws) ← pMany (fun ws => do
+    let (s, ws) ← pNum N ws
+    let (nm, ws) ← pPt N ws
+    let (mx, ws) ← pNum N ws
+    pure ((⟨s, nm, mx⟩ : SCon α), ws)) n ws
+  let (npts, ws) ← pNat ws
+  let (pts, ws) ← pMany (pPt N) npts ws
+  if !ws.isEmpty then none
+  let cs := unscaledCs l
+  pure s!"1 {String.join (pts.map fun p => boolStr (polyContains cs p))}"
+
+/-- `pvert`: the vertices that `Mesh()` enumerates, `tol` = the literal `1e-8`. -/
+def runPolyVerts (N : Num α) (ws : List String) : Option String := do
+  let (d3, ws) ← pDim ws
+  let (n, ws) ← pNat ws
+  let (cs, ws) ← pMany (fun ws => do
+    let (nm, ws) ← pPt N ws
+    let (mx, ws) ← pNum N ws
+    pure ((nm, mx), ws)) n ws
+  if !ws.isEmpty then none
+  let vs := if d3 then meshVerts3 N.sq N.eps cs else meshVerts2 N.sq N.eps cs
+  pure s!"{vs.length}{String.join (vs.map fun v => " " ++ showPt N d3 v)}"
+
 def handleWith (N : Num α) : List String → Option String
   | "tree" :: ws => runTree N ws
+  | "polycut" :: ws => runPolyCut N ws
+  | "pvert" :: ws => runPolyVerts N ws
   | kind :: ws => runPrim N kind ws
   | [] => none
 
